@@ -92,7 +92,7 @@ Fixpoint rx_lookup (t : rxtab) (pat path : bytes) : rxr :=
   end.
 
 Definition srv_pol (rx : rxo) (root : option fnode) : pol :=
-  {| on_headers := fun rq => server_dispatch rx (option_map (resolve (request_passes rq)) root) rq;
+  {| on_headers := fun rq _ => server_dispatch rx (option_map (resolve (request_passes rq)) root) rq;
      on_ready := []; on_finished := []; hdr_after := true |}.
 
 Definition run_srv4 (tree ops orc : value) : value :=
